@@ -14,7 +14,7 @@ import ast
 import itertools
 import re
 
-from .absint import AObj, AnalysisError, Bound, BuiltinExcValue, EXC, Interp, MISSING, PyRaise
+from .absint import AObj, AnalysisError, Bound, BuiltinExcValue, EXC, Interp, MISSING, PyRaise, Sym
 from . import pkgmodel
 from .strdomain import SEM
 
@@ -104,6 +104,7 @@ class MarkerDomain:
         self.it = it = Interp(src)
         pkgmodel.install(it)
         it.max_steps = None
+        it.opaque_calls["Marker"] = PkgMarker
         try:
             self.single = it.module("dep_logic.markers.single")
             self.multi = it.module("dep_logic.markers.multi")
@@ -317,6 +318,20 @@ class MarkerDomain:
     def to_text(self, m):
         return self.it.to_str(m)
 
+    def parse(self, text, budget=None):
+        """the code's own parse_marker(text), interpreted (packaging's parser replaced by the own PEP 508 grammar)."""
+        it = self.it
+        mod = it.module("dep_logic.markers")
+        if "parse_marker" not in mod.ns:
+            raise AnalysisError("anchor dep_logic.markers:parse_marker missing")
+        if budget:
+            it.steps = 0
+            it.max_steps = budget
+        try:
+            return it.call(mod.ns["parse_marker"], [text], {})
+        finally:
+            it.max_steps = None
+
     def first_diff(self, a, b):
         d = a ^ b
         i = (d & -d).bit_length() - 1
@@ -399,6 +414,49 @@ def parse_marker_text(text):
     if i != len(toks):
         raise MarkerTextError(f"trailing tokens from {toks[i][1]!r}")
     return t
+
+
+class PkgNode:
+    """packaging.markers.Variable / Value / Op stand-in (str() and isinstance only)."""
+
+    def __init__(self, kind, text):
+        self.ext_class = f"packaging.markers.{kind}"
+        self.text = text
+
+    def __str__(self):
+        return self.text
+
+    def __repr__(self):
+        return f"{self.ext_class.split('.')[-1]}({self.text!r})"
+
+
+def to_pkg_markers(tree):
+    """own parse tree -> the nested list structure packaging's Marker._markers documents."""
+    def conv(t, top=False):
+        if t[0] == "atom":
+            _, name, op, value, ll = t
+            a = (PkgNode("Value", value), PkgNode("Op", op), PkgNode("Variable", name)) if ll else \
+                (PkgNode("Variable", name), PkgNode("Op", op), PkgNode("Value", value))
+            return a
+        word = t[0]
+        out = []
+        for i, x in enumerate(t[1]):
+            if i:
+                out.append(word)
+            c = conv(x)
+            out.append(c)
+        return out
+    r = conv(tree)
+    return [r] if isinstance(r, tuple) else r
+
+
+class PkgMarker(Sym):
+    def __init__(self, text):
+        try:
+            self.tree = parse_marker_text(text)
+        except MarkerTextError as e:
+            raise PyRaise(BuiltinExcValue(EXC["ValueError"], (str(e),)))
+        self.sym__markers = to_pkg_markers(self.tree)
 
 
 def tree_mask(envs, t):
